@@ -29,6 +29,7 @@ import (
 	"cedarsim/simnet"
 
 	"github.com/anishathalye/porcupine"
+	"github.com/bbockelm/cedar/ccb"
 	"github.com/bbockelm/cedar/client"
 	"github.com/bbockelm/cedar/message"
 	"github.com/bbockelm/cedar/security"
@@ -38,7 +39,7 @@ import (
 )
 
 type params struct {
-	Kind string `json:"kind"` // cache | handshakes | stream
+	Kind string `json:"kind"` // cache | handshakes | stream | listener
 }
 
 // yctl decides which inserted scheduling points park in this run.
@@ -849,6 +850,184 @@ func firstDiff(a, b []string) int {
 	return len(a)
 }
 
+
+// ---------------------------------------------------------------- ccb.Listener: many writers, one reader on the broker stream
+
+func runListener(s *kernel.Sim, c *scen.Case) {
+	hs.Init()
+	t := s.T
+	bg := context.Background()
+	net0 := simnet.New(s, simnet.Config{MaxLatency: time.Duration(t.Choose("lat", 3)) * 4 * time.Millisecond, Segment: t.Chance("seg", 1, 2), ShortReads: t.Chance("short", 1, 2)})
+	s.Quantum, s.IdleMax = 40*time.Second, 2
+	brokerLn, err1 := net0.Listen("10.0.1.1:9618")
+	reqLn, err2 := net0.Listen("10.0.9.9:7000")
+	if err1 != nil || err2 != nil {
+		s.Violate("harness", "listen", fmt.Sprint(err1, err2))
+		return
+	}
+	enc := security.SecurityRequired
+	if t.Chance("plain", 1, 4) {
+		enc = security.SecurityNever
+	}
+	lcfg := hs.Cfg(security.SecurityNever, enc, nil, hs.AES, 0)
+	lcfg.SessionCache = security.NewSessionCache()
+	bcfg := hs.Cfg(security.SecurityNever, enc, nil, hs.AES, security.NoCommand)
+	bcfg.SessionCache = security.NewSessionCache()
+	ctx, cancel := context.WithCancel(bg)
+	defer cancel()
+	var handed []string
+	l := ccb.NewListener(ccb.ListenerConfig{
+		BrokerAddr: "10.0.1.1:9618", Security: lcfg, Name: "daemon",
+		HeartbeatInterval: 30 * time.Second, ReconnectInterval: 60 * time.Second,
+		Handler: func(conn net.Conn, meta ccb.InboundMeta) {
+			handed = append(handed, conn.RemoteAddr().String())
+			conn.Close()
+		},
+		Dial: func(dctx context.Context, addr string) (net.Conn, error) {
+			a := strings.Trim(addr, "<>")
+			if i := strings.Index(a, "?"); i >= 0 {
+				a = a[:i]
+			}
+			ep, err := net0.Dial(dctx, "10.0.0.1", a)
+			if err != nil {
+				return nil, err
+			}
+			return ep, nil
+		},
+	})
+	n := 2 + t.Choose("nreq", 5)
+	type res struct {
+		req, claim string
+		ok         bool
+	}
+	var results []res
+	var hellos []string
+	alive := 0
+	var brokerErr error
+	stop := false
+	y := newYctl(s)
+	defer removeYield()
+	s.Go("listener", func() { _ = l.Run(ctx) })
+	s.Go("requester", func() {
+		k := 0
+		for !stop {
+			conn, err := reqLn.Accept()
+			if err != nil {
+				return
+			}
+			k++
+			s.Go(fmt.Sprintf("requester.conn%02d", k), func() {
+				defer conn.Close()
+				st := stream.NewStream(conn)
+				m := message.NewMessageFromStream(st)
+				cmd, err := m.GetInt(bg)
+				if err != nil {
+					return
+				}
+				ad, err := ccb.ReadReverseConnectAd(bg, m, cmd)
+				if err != nil {
+					return
+				}
+				hellos = append(hellos, ccb.AdString(ad, ccb.AttrClaimID))
+			})
+		}
+	})
+	s.Go("broker", func() {
+		conn, err := brokerLn.Accept()
+		if err != nil {
+			return
+		}
+		st := stream.NewStream(conn)
+		if _, err := security.NewAuthenticator(bcfg, st).ServerHandshake(bg); err != nil {
+			brokerErr = fmt.Errorf("broker handshake: %w", err)
+			return
+		}
+		if _, err := ccb.ReadControlAd(bg, st); err != nil {
+			brokerErr = fmt.Errorf("read registration: %w", err)
+			return
+		}
+		if err := ccb.WriteControlAd(bg, st, ccb.NewAd(map[string]any{ccb.AttrCCBID: "10.0.1.1:9618#7", ccb.AttrClaimID: "cookie7"})); err != nil {
+			brokerErr = err
+			return
+		}
+		s.Go("broker.reader", func() {
+			for !stop {
+				ad, err := ccb.ReadControlAd(bg, st)
+				if err != nil {
+					if !stop && !s.Ended() {
+						brokerErr = fmt.Errorf("broker could not read what the listener wrote: %w", err)
+					}
+					return
+				}
+				if cmd, _ := ccb.AdInt(ad, ccb.AttrCommand); int(cmd) == ccb.CommandAlive {
+					alive++
+					continue
+				}
+				ok, _ := ccb.AdBool(ad, ccb.AttrResult)
+				results = append(results, res{ccb.AdString(ad, ccb.AttrRequestID), ccb.AdString(ad, ccb.AttrClaimID), ok})
+			}
+		})
+		for i := 0; i < n && !s.Ended(); i++ {
+			ad := ccb.NewAd(map[string]any{ccb.AttrCommand: ccb.CommandRequest, ccb.AttrMyAddress: "<10.0.9.9:7000>", ccb.AttrClaimID: fmt.Sprintf("connect-%02d", i), ccb.AttrRequestID: fmt.Sprintf("req-%02d", i)})
+			if err := ccb.WriteControlAd(bg, st, ad); err != nil {
+				brokerErr = err
+				return
+			}
+			switch t.Choose("gap", 4) {
+			case 1:
+				s.Sleep("broker", 3*time.Millisecond)
+			case 2:
+				s.Sleep("broker", 31*time.Second) // a heartbeat falls among the results
+			}
+		}
+		// wait for the answers, then hang up
+		for i := 0; i < 200 && len(results) < n && brokerErr == nil && !s.Ended(); i++ {
+			s.Sleep("broker-wait", 500*time.Millisecond)
+		}
+		stop = true
+		cancel()
+		conn.Close()
+		reqLn.Close()
+		brokerLn.Close()
+	})
+	y.off = false
+	s.Run()
+	y.off = true
+	if s.Overrun {
+		return
+	}
+	for _, tk := range s.Tasks() {
+		if tk.Panic != nil {
+			s.Violate("panic", "listener", fmt.Sprintf("%s: %v\n%s", tk.Name, tk.Panic, tk.Stack))
+			return
+		}
+	}
+	if brokerErr != nil {
+		s.Violate("broker-stream-disturbed", "listener", brokerErr.Error())
+		return
+	}
+	seen := map[string]int{}
+	for _, r := range results {
+		seen[r.req]++
+		if !r.ok || r.claim != "connect-"+strings.TrimPrefix(r.req, "req-") {
+			s.Violate("broker-stream-disturbed", "listener/result", fmt.Sprintf("result for %s: ok=%v claim=%q", r.req, r.ok, r.claim))
+			return
+		}
+	}
+	for i := 0; i < n; i++ {
+		if seen[fmt.Sprintf("req-%02d", i)] != 1 {
+			s.Violate("broker-stream-disturbed", "listener/count", fmt.Sprintf("request %d answered %d times (%d requests, %d results, %d hellos, %d heartbeats, %d handed over)", i, seen[fmt.Sprintf("req-%02d", i)], n, len(results), len(hellos), alive, len(handed)))
+			return
+		}
+	}
+	if len(hellos) != n || len(handed) != n {
+		s.Violate("broker-stream-disturbed", "listener/hellos", fmt.Sprintf("%d requests, %d reverse-connect hellos, %d connections handed to the daemon", n, len(hellos), len(handed)))
+	}
+	if alive > 0 {
+		s.Probe("heartbeat-among-results")
+	}
+}
+
 // ---------------------------------------------------------------- catalogue
 
 func run(s *kernel.Sim, c *scen.Case) {
@@ -861,6 +1040,8 @@ func run(s *kernel.Sim, c *scen.Case) {
 		runHandshakes(s, c)
 	case "stream":
 		runStream(s, c)
+	case "listener":
+		runListener(s, c)
 	}
 }
 
@@ -878,6 +1059,7 @@ var scenarios = []*scen.Scenario{
 	{Name: "cache", Weight: 5, Gen: gen("cache"), Run: run},
 	{Name: "handshakes", Weight: 3, Gen: gen("handshakes"), Run: run},
 	{Name: "stream", Weight: 2, Gen: gen("stream"), Run: run},
+	{Name: "listener", Weight: 2, Gen: gen("listener"), Run: run, ResidualNondeterminism: "ccb.Listener starts its own goroutines (serve loop, heartbeat ticker, one per request, one per hand-over) and selects over a ticker and its context; the order in which the Go runtime lets several of them reach their first simulator primitive after a virtual-time step is not the simulator's decision (observed: 1 diverging event log in 40 processes of one seed)"},
 }
 
 func TestScenario(t *testing.T) { scen.Main(t, "C17", scenarios) }
